@@ -78,12 +78,26 @@ class C14(LineCheck):
         env = dict(os.environ, TSAN_OPTIONS="exitcode=66 halt_on_error=0")
         if getattr(self, "covdir", None):
             env["TSAN_COV_FILE"] = os.path.join(self.covdir, "stress_%d" % seed)
+        # own session = own process group: whatever the program leaves behind when it is killed or crashes (a child it
+        # had stopped, on a broken tree) is removed with the group
+        import signal
+        p = subprocess.Popen([exe, str(seed)], stdout=subprocess.PIPE, stderr=subprocess.PIPE, text=True, errors="replace",
+                             env=env, start_new_session=True)
         try:
-            p = subprocess.run([exe, str(seed)], stdout=subprocess.PIPE, stderr=subprocess.PIPE, text=True, errors="replace",
-                               timeout=90, env=env)
-            out, err, rc = p.stdout, p.stderr, p.returncode
+            out, err = p.communicate(timeout=90)
+            rc = p.returncode
         except subprocess.TimeoutExpired:
-            out, err, rc = "", "[timeout]", 124
+            try:
+                os.killpg(p.pid, signal.SIGKILL)    # the program AND its children: they hold the pipes open
+            except OSError:
+                pass
+            out, err = p.communicate()
+            out, err, rc = "", (err or "") + "[timeout]", 124
+        finally:
+            try:
+                os.killpg(p.pid, signal.SIGKILL)
+            except OSError:
+                pass
         races = []
         for blk in err.split("=================="):
             if "WARNING: ThreadSanitizer: data race" in blk:
